@@ -53,6 +53,17 @@ def level_a_specs(monitors=(), linelen_variants=False, thorough=False, corpus_on
                 sp["name"] = "%s@len%d" % (c["name"], n)
                 sp["linelen"] = n
                 specs.append(sp)
+        # the two settings are independent: the Fortran emitter writes with F_line_length, the others with C_line_length
+        for ci, c in enumerate(cfgs):
+            if not thorough and ci % 4 != common.seed() % 4 and c["name"] not in ("tutorial", "strings", "classes", "vectors"):
+                continue
+            for nc, nf in ((100, 60), (60, 100)) if (thorough or ci % 2 == 0) else ((100, 60),):
+                sp = corpus.spec(c, monitors=monitors,
+                                 yaml_override=with_options(corpus.yaml_text(c), {"C_line_length": nc, "F_line_length": nf}))
+                sp["name"] = "%s@lenC%dF%d" % (c["name"], nc, nf)
+                sp["linelen"] = nc
+                sp["linelen_f"] = nf
+                specs.append(sp)
     if not corpus_only:
         specs.extend(genlib_specs(monitors, thorough))
     return specs
